@@ -273,7 +273,14 @@ pub fn try_cleanup_corrupt_lock_file(data_dir: impl AsRef<Path>) -> Result<bool,
     #[cfg(rip_verif)]
     rip_kernel::verif::point("auth.corrupt.before_meta_exists");
     if authority_meta_path(&data_dir).exists() {
-        return Ok(false);
+        // meta.json normally means an authority published its endpoint, so its lock is left alone.
+        // A meta.json left behind by an authority whose pid is gone must not protect an unreadable
+        // lock forever: half-written lock + stale meta.json would wedge the store for every later
+        // start (stale cleanup needs a readable lock record, corrupt cleanup needed "no meta.json").
+        match read_authority_meta(&data_dir) {
+            Ok(Some(meta)) if pid_liveness(meta.pid) == PidLiveness::Dead => {}
+            _ => return Ok(false),
+        }
     }
 
     let tombstone = lock_path.with_file_name(format!(
